@@ -159,6 +159,170 @@ def run_schedule(mod, max_size, programs, plan, opcodes=False, idle=None, fail_c
     return sched, viol, leak
 
 
+def run_pc_schedule(mod, base, max_size, programs, plan):
+    """the same thread programs, but through the REAL PooledClient methods (get / failing set / quit / failing quit / close) with REAL Client
+    objects in the pool; pool.py is the traced module, the socket module is a stub.  Returns (sched, violations, leaked sockets)."""
+    sched = Sched(plan)
+    sched.in_get = {}
+    sched.answers = []
+    Obj.answers, Obj.clock = None, None
+    socks = []
+    failing = {}          # tid -> the current op's sendall must fail
+    holding = {}
+    viol = []
+
+    class PSock:
+        def __init__(self):
+            self.id = len(socks)
+            socks.append(self)
+            self.closed = 0
+            self.buf = b""
+
+        def settimeout(self, t): pass
+        def setsockopt(self, *a): pass
+        def connect(self, addr): pass
+
+        def sendall(self, data):
+            tid = sched.tid()
+            o = holding.get(tid)
+            sched.event(f"work {o.i if o is not None else '?'}")
+            users = [t for t, h in holding.items() if h is o and o is not None]
+            if len(users) > 1:
+                viol.append(f"during I/O: connection {o.i} is held by two threads {sorted(users)}")
+            if self.closed:
+                raise OSError(9, "closed")
+            if failing.get(tid):
+                raise OSError(32, "broken pipe")
+            if data.startswith(b"get"):
+                self.buf += b"END\r\n"
+            elif data.startswith(b"set"):
+                self.buf += b"STORED\r\n"
+
+        def recv(self, n):
+            out, self.buf = self.buf[:n], self.buf[n:]
+            return out
+
+        def close(self):
+            self.closed += 1
+
+    class SM:
+        AF_UNIX, AF_INET, AF_UNSPEC, SOCK_STREAM, IPPROTO_TCP, TCP_NODELAY = 1, 2, 0, 1, 6, 1
+        timeout, error = __import__("socket").timeout, OSError
+
+        @staticmethod
+        def socket(*a):
+            return PSock()
+
+        @staticmethod
+        def getaddrinfo(host, port, *a):
+            return [(2, 1, 6, "", (host, port))]
+    real_pool_mod = base.pool
+    base.pool = mod
+    try:
+        pc = base.PooledClient(("h", 1), socket_module=SM, max_pool_size=max_size, lock_generator=lambda: SLock(sched), default_noreply=False)
+    finally:
+        base.pool = real_pool_mod
+    pool = pc.client_pool
+    used, free = make_deques(sched)
+    pool._used_objs, pool._free_objs = used, free
+    created = []
+    orig_create, orig_after = pool._obj_creator, pool._after_remove
+
+    def creator():
+        o = orig_create()
+        o.i = len(created)
+        o.closes = 0
+        created.append(o)
+        sched.event(f"create {o.i}")
+        return o
+
+    def after_remove(o):
+        sched.event(f"after_remove {o.i}")
+        o.closes += 1
+        orig_after(o)
+    pool._obj_creator, pool._after_remove = creator, after_remove
+
+    def check_invariants(where):
+        u = list(collections.deque.__iter__(used))
+        f = list(collections.deque.__iter__(free))
+        if len(u) + len(f) > pool.max_size:
+            viol.append(f"{where}: pool holds {len(u) + len(f)} > max_size {pool.max_size}")
+        if len({id(o) for o in u + f}) != len(u + f):
+            viol.append(f"{where}: a connection is listed twice (used={[o.i for o in u]} free={[o.i for o in f]})")
+        hs = [o for o in holding.values() if o is not None]
+        if len({id(o) for o in hs}) != len(hs):
+            viol.append(f"{where}: a connection is held by two threads {[o.i for o in hs]}")
+        for o in f:
+            if any(o is h for h in hs):
+                viol.append(f"{where}: connection {o.i} is idle in the pool while a thread holds it")
+    real_get, real_release, real_destroy = pool.get, pool.release, pool.destroy
+
+    def get():
+        tid = sched.tid()
+        sched.in_get[tid] = True
+        try:
+            o = real_get()
+        finally:
+            sched.in_get[tid] = False
+        holding[tid] = o
+        check_invariants("after get")
+        return o
+
+    def release(o, *a, **kw):
+        holding[sched.tid()] = None            # the thread declares it is done with the connection
+        r = real_release(o, *a, **kw)
+        check_invariants("after release")
+        return r
+
+    def destroy(o, *a, **kw):
+        holding[sched.tid()] = None
+        r = real_destroy(o, *a, **kw)
+        check_invariants("after destroy")
+        return r
+    pool.get, pool.release, pool.destroy = get, release, destroy
+
+    def body(tid, prog):
+        def f():
+            for op in prog:
+                failing[tid] = op in ("useFail", "quitFail")
+                try:
+                    if op == "clear":
+                        pc.close()
+                    elif op == "useOk":
+                        pc.get("k")
+                    elif op == "useFail":
+                        pc.set("k", b"v", noreply=False)
+                    else:
+                        pc.quit()
+                except OSError:
+                    pass
+                except RuntimeError as e:
+                    if "Too many objects" not in str(e):
+                        raise
+                finally:
+                    holding[tid] = None
+                check_invariants("after op")
+        return f
+    ok = sched.run([body(i, p) for i, p in enumerate(programs)], "POOLSRC")
+    u = list(collections.deque.__iter__(used))
+    f = list(collections.deque.__iter__(free))
+    if not ok or sched.deadlock:
+        viol.append("deadlock: some thread never finished")
+    for e in sched.errors:
+        viol.append(f"internal error escaped thread {e[0]}: {e[1]}: {e[2]}")
+    leak = []
+    if ok and not sched.deadlock:
+        if u:
+            viol.append(f"quiescent but {len(u)} connection(s) still checked out")
+        pooled = {id(o.sock) for o in f if o.sock is not None}
+        for sk in socks:
+            if not sk.closed and id(sk) not in pooled:
+                leak.append(sk.id)
+            if sk.closed and id(sk) in pooled:
+                viol.append(f"socket {sk.id} of an idle pooled client is closed")
+    return sched, viol, leak
+
+
 def trace_tok(trace):
     return ",".join(f"{t}:{e.replace(' ', '~')}" for t, e in trace) or "-"
 
@@ -278,6 +442,45 @@ def main(argv):
                     ctx.violation(f"connection(s) {leak} were closed by clear() while checked out, re-opened by their holder and never closed again", case,
                                   tags=["clear-vs-holder"])
                 lines.append(f"pool.validate max={mx} progs={';'.join(','.join(p) for p in programs)} trace={trace_tok(sched.trace)}")
+                metas.append(("val", case, None))
+    # ---- (P) the same programs through the real PooledClient methods with real Client objects in the pool -----------------------------------
+    import pymemcache.client.base as base_mod
+    pc_sets = [([a], [b]) for a in OPS for b in OPS] + [(["useOk"], ["useOk"], ["useOk"]), (["quitOk"], ["useOk"], ["useOk"]), (["quitFail"], ["useOk"], ["useOk"]),
+                                                          (["useOk", "useOk"], ["useOk", "quitOk"]), (["useFail"], ["useOk"], ["clear"])]
+    for programs in pc_sets:
+        programs = [list(p_) for p_ in programs]
+        for mx in (1, 2, 3):
+            if (mx == 3) != (len(programs) == 3) and not ctx.thorough:
+                continue
+            s0, _, _ = run_pc_schedule(mod, base_mod, mx, programs, ())
+            npoints = min(s0.pos, 110)
+            three = len(programs) == 3
+            pl = plans(range(0, npoints, 1 if ctx.thorough else 2), len(programs), 1)
+            if programs in ([["quitOk"], ["useOk"]], [["quitFail"], ["useOk"]]) or (ctx.thorough and not three and any(o_.startswith("quit") for p_ in programs for o_ in p_)):
+                # two pre-emptions (there and back) around the two pool calls of quit()
+                pts2 = list(range(0, npoints, 1 if ctx.thorough else 2))
+                pl = itertools.chain(pl, (((p_, 1), (q_, 0)) for p_, q_ in itertools.combinations(pts2, 2)))
+            if three:
+                pts3 = list(range(0, npoints, 3))
+                pl = itertools.chain(pl, (((p_, t_), (q_, u_)) for p_, q_ in itertools.combinations(pts3, 2) for t_ in range(3) for u_ in range(3) if t_ != u_))
+            for plan in pl:
+                if three and len(plan) == 2 and not ctx.thorough and (plan[0][0] + plan[1][0]) % 4:
+                    continue
+                sched, viol, leak = run_pc_schedule(mod, base_mod, mx, programs, plan)
+                nruns += 1
+                has_clear = any("clear" in p_ for p_ in programs)
+                case = {"level": "PooledClient methods, real Client objects", "programs": programs, "max_size": mx, "plan": [list(x) for x in plan],
+                        "trace_tail": [f"{t}:{e}" for t, e in sched.trace][-25:]}
+                ctx.case(("pc", tuple(map(tuple, programs)), mx, plan))
+                ctx.count(f"pooled-client interleavings threads={len(programs)}")
+                for v in viol:
+                    ctx.violation(v, case, tags=["pooled-client-level"] + (["clear-race"] if (has_clear and "closed" in v) else []))
+                if leak:
+                    if has_clear:
+                        ctx.violation(f"socket(s) {leak} opened by a holder after clear() closed its client were never closed", case, tags=["clear-vs-holder"])
+                    else:
+                        ctx.violation(f"socket(s) {leak} were never closed and belong to no idle pooled client", case, tags=["pooled-client-level", "leak"])
+                lines.append(f"pool.validate max={mx} progs={';'.join(','.join(p_) for p_ in programs)} trace={trace_tok(sched.trace)}")
                 metas.append(("val", case, None))
     if ctx.thorough:
         # opcode-level yield points, random single pre-emptions
